@@ -51,6 +51,7 @@ pub fn universe(fam: Family, ctx: &Ctx) -> (Vec<Ast>, usize) {
     ctx.count_set(&format!("{name}_U_field_each_slot"), st.each_slot as u64);
     ctx.count_set(&format!("{name}_U_field_slot_pairs"), st.pairs as u64);
     ctx.count_set(&format!("{name}_U_field_flag_code_products"), st.flag_products as u64);
+    ctx.count_set(&format!("{name}_U_field_slot_relations"), st.relations as u64);
     ctx.count_set(&format!("{name}_U_field_dropped_by_reference_grammar"), st.dropped_by_grammar as u64);
     let _ = nsize;
     u.extend(f);
@@ -271,7 +272,7 @@ fn nontrivial(a: &Ast) -> bool {
 }
 
 pub fn c01(ctx: &Ctx) {
-    ctx.set_rule("U_val (all presence subsets, every atom of every field alone and with all others present, full products of the flag groups, user-property lists; thorough: all pairs) ∪ U_size (field lengths 0/1/127/128/16383/16384/65535, remaining lengths on every width boundary) ∪ U_field (every scalar / text / binary slot of a full packet of every type set to every atom of its kind: walking-one, walking-zero and single-byte bit patterns, special code points and look-alike strings, all-byte-value blobs; every flag combination and every reason code behind every single property; thorough: all slot pairs) ∪ U_thresh (every PUBLISH flag combination with payloads of 2^k-1, 2^k, 2^k+1 bytes for k = 5..16, and every bulk field of every packet type at those sizes inside a full packet); each value: encode, blocking decode, async decode (always ready + all compositions for <= 10 bytes, else deviation-bounded cut sets, with and without Pending), poll decode with total and body; oracle = the crate's PartialEq against the original, header width from the reference varint; non-trivial = values with an optional field, property, code or list element present");
+    ctx.set_rule("U_val (all presence subsets, every atom of every field alone and with all others present, full products of the flag groups, user-property lists; thorough: all pairs) ∪ U_size (field lengths 0/1/127/128/16383/16384/65535, remaining lengths on every width boundary) ∪ U_field (every scalar / text / binary slot of a full packet of every type set to every atom of its kind: walking-one, walking-zero and single-byte bit patterns, special code points and look-alike strings, all-byte-value blobs; every flag combination and every reason code behind every single property; every pair of compatible slots holding equal and prefix-related content; thorough: all slot pairs) ∪ U_thresh (every PUBLISH flag combination with payloads of 2^k-1, 2^k, 2^k+1 bytes for k = 5..16, and every bulk field of every packet type at those sizes inside a full packet); each value: encode, blocking decode, async decode (always ready + all compositions for <= 10 bytes, else deviation-bounded cut sets, with and without Pending), poll decode with total and body; oracle = the crate's PartialEq against the original, header width from the reference varint; non-trivial = values with an optional field, property, code or list element present");
     run_family::<V3>(ctx, "C01", &|c, a| c01_item::<V3>(c, a));
     run_family::<V5>(ctx, "C01", &|c, a| c01_item::<V5>(c, a));
     // the round trip must not depend on what the thread encoded or decoded before
